@@ -4,8 +4,23 @@ the seeded-changes table (from seeded/*/meta.json) and the findings lists (from 
 import json, glob, os, re, sys
 V = os.path.dirname(os.path.dirname(os.path.abspath(__file__)))
 def esc(s): return " ".join(str(s).replace("|", "\\|").split())
+def seeded_tally():
+    import collections
+    c = collections.Counter()
+    for d in sorted(glob.glob(os.path.join(V, "seeded", "*"))):
+        m = json.load(open(os.path.join(d, "meta.json"))); ca = str(m.get("verif_result", {}).get("caught"))
+        prop = os.path.basename(d).split("-")[0]
+        if ca.startswith("True") or ca == "yes" or ca.startswith(prop + ": True") or ca.startswith(prop + ": yes"): k = "caught at once by the property's own check"
+        elif ca.startswith("NO at first"): k = "missed at first, caught after the tie was widened (or, for the newest ones, being widened)"
+        elif (prop + ": NO at first") in ca: k = "caught at once by a sibling property's check, by the own check after widening"
+        elif (prop + ": NO") in ca: k = "caught by a sibling property's check only"
+        else: k = "other"
+        c[k] += 1
+    tot = sum(c.values())
+    return "Tally of the %d kept changes: " % tot + "; ".join("%d %s" % (n, k) for k, n in c.most_common()) + "."
+
 def seeded_table():
-    rows = ["| id | change (what it needs to manifest) | caught by |", "|---|---|---|"]
+    rows = [seeded_tally(), "", "| id | change (what it needs to manifest) | caught by |", "|---|---|---|"]
     for d in sorted(glob.glob(os.path.join(V, "seeded", "*"))):
         m = json.load(open(os.path.join(d, "meta.json")))
         vr = m.get("verif_result", {})
